@@ -131,6 +131,9 @@ def choose_pairs(rng, thorough):
         (one("cuboctahedron"), "ugrid_offcentres", one("cube")),  # in-memory UGRID dataset
         (one("octahedron"), "topology_offcentres", one("octahedron")),  # onto itself: identity on supplied centres
         (one("cube"), "topology", one("truncated_octahedron"), "ugrid_offcentres"),  # destination with supplied centres
+        # different Grid objects of the SAME mesh (they compare equal) that disagree on edge numbering and on centres
+        (one("cube"), "topology_offcentres_rev", one("cube"), "topology"),
+        (one("cuboctahedron"), "topology", one("cuboctahedron"), "topology_offcentres_rev"),
     ]
     if thorough:
         names = sorted({e["name"] for e in catalog.entries()})
@@ -245,11 +248,22 @@ def run_pair(job):
                 data = rng.uniform(-5.0, 5.0, size=lead_shape + (n_src,))
             uxda = ux.UxDataArray(data, dims=m["lead"] + [X.DIMS[kind]], uxgrid=gs, name="v")
             ncalls += 1
+            keep = (mi % 7 == 0)  # every seventh call of the matrix: arguments finger-printed before and after
+            if keep:
+                data0 = np.array(data, copy=True)
+                fp0 = {"src": X.grid_fingerprint(gs), "dst": X.grid_fingerprint(gd)}
             if m["method"] == "nn":
                 out = uxda.remap.nearest_neighbor(gd, remap_to=remap_to, coord_type=coord)
             else:
                 out = uxda.remap.inverse_distance_weighted(gd, remap_to=remap_to, coord_type=coord, power=m["power"], k=m["k"])
             vals = np.asarray(out.values, dtype=float)
+            if keep:
+                fp1 = {"src": X.grid_fingerprint(gs), "dst": X.grid_fingerprint(gd)}
+                changed = [w + "." + v for w in fp0 for v in fp0[w] if fp0[w][v] != fp1[w][v]]
+                if not np.array_equal(np.asarray(uxda.values), data0) or not np.array_equal(data, data0):
+                    changed.append("source data")
+                if changed:
+                    num.append({"clause": "ArgsKept", "call": call, "sig": sigbase, "detail": {"changed": changed}})
         except Exception as e:  # noqa
             errors.append({"call": call, "error": "%s: %s" % (type(e).__name__, str(e)[:200]), "sig": sigbase})
             continue
@@ -326,35 +340,38 @@ CONSTANTS
  MaxLen = %(maxlen)d
  MaxDiff = %(maxdiff)d
  Mech <- %(mech)s
+ Shape = "%(shape)s"
 %(invs)s
 CHECK_DEADLOCK FALSE
 """
 
 
-def rh_cfg(mech, maxlen, maxdiff, invs, meths=("nn", "idw2", "idw3"), judge=False):
+def rh_cfg(mech, maxlen, maxdiff, invs, meths=("nn", "idw2", "idw3"), judge=False, shape="calls"):
     return RH_CFG % {
         "head": "INIT JInit\nNEXT JNext" if judge else "SPECIFICATION Spec",
         "meths": ", ".join('"%s"' % m for m in meths),
         "maxlen": maxlen,
         "maxdiff": maxdiff,
         "mech": mech,
+        "shape": shape,
         "invs": "".join("INVARIANT %s\n" % i for i in invs),
     }
 
 
-def gen_remap_histories(ctx, maxlen, maxdiff, simulate=None, seed=None):
+def gen_remap_histories(ctx, maxlen, maxdiff, simulate=None, seed=None, shape="calls"):
     kw = {"simulate": simulate, "depth": maxlen + 1, "seed": seed, "workers": 1} if simulate else {"workers": 4}
-    r = ctx.tlc_ok("RemapHist", rh_cfg("MechObserved", maxlen, maxdiff, ["Independent", "Emit"]), what="generate histories of %d remap calls on one grid pair, consecutive calls differing in <= %d fields%s" % (maxlen, maxdiff, " (simulation)" if simulate else " (all)"), timeout=1500, **kw)
+    r = ctx.tlc_ok("RemapHist", rh_cfg("MechObserved", maxlen, maxdiff, ["Independent", "Emit"], shape=shape), what="generate histories of %d steps (%s) on one grid pair, consecutive calls differing in <= %d fields%s" % (maxlen, shape, maxdiff, " (simulation)" if simulate else " (all)"), timeout=1500, **kw)
     out = []
     for v in r.prints:
         if isinstance(v, tuple) and len(v) == 2 and v[0] == "H":
-            out.append([{"call": dict(s["call"]), "diff": sorted(s["diff"])} for s in v[1]])
+            out.append([({"op": "remap", "call": dict(s["call"]), "diff": sorted(s["diff"])} if s["op"] == "remap" else {"op": "recentre", "diff": []}) for s in v[1]])
     if not out:
         raise Machinery("no remap histories generated: %s" % r)
     return out
 
 
-H_SRC = ("cuboctahedron", 0, 0)  # 12 nodes, 14 faces, 24 edges
+H_SRC = ("cuboctahedron", 0, 0)  # 12 nodes, 14 faces, 24 edges; face and edge centres SUPPLIED, off the centroids
+H_SRC_VARIANT = "topology_offcentres"
 H_DST = {1: ("cube", 0, 0), 2: ("octahedron", 0, 0)}
 _HDATA = {}
 _FRESH = {}
@@ -389,34 +406,66 @@ def do_call(c, gs, dests):
     return {k: np.asarray(out["v_" + X.PREFIX[k]].values) for k in X.KINDS}
 
 
-def fresh_grids():
-    return X.build_grid(h_entry(H_SRC)), {d: X.build_grid(h_entry(t)) for d, t in H_DST.items()}
+def fresh_grids(cv=0):
+    gs = X.build_grid(h_entry(H_SRC), H_SRC_VARIANT)
+    if cv:
+        gs.construct_face_centers(method="cartesian average")
+    return gs, {d: X.build_grid(h_entry(t)) for d, t in H_DST.items()}
 
 
-def fresh_result(c):
-    key = repr(sorted(c.items()))
+def fresh_result(c, cv):
+    key = repr(sorted(c.items())) + "|cv%d" % cv
     if key not in _FRESH:
-        gs, dests = fresh_grids()
+        gs, dests = fresh_grids(cv)
         _FRESH[key] = do_call(c, gs, dests)
     return _FRESH[key]
+
+
+def fp_all(gs, dests):
+    out = {"src": X.grid_fingerprint(gs)}
+    for d, g in dests.items():
+        out["dst%d" % d] = X.grid_fingerprint(g)
+    out["data"] = {k: v.tobytes() for k, v in _HDATA.items()}
+    return out
+
+
+def fp_diff(a, b):
+    bad = []
+    for who in a:
+        for var in a[who]:
+            if var in b[who] and a[who][var] != b[who][var]:
+                bad.append("%s.%s" % (who, var))
+    return bad
 
 
 def replay_remap_history(item):
     hid, hist = item
     gs, dests = fresh_grids()
+    for k in X.KINDS:  # the data arrays exist before the first fingerprint
+        h_data(k, {"nodes": int(gs.n_node), "face centers": int(gs.n_face), "edge centers": int(gs.n_edge)}[k])
     steps = []
+    cv = 0
     for st in hist:
+        if st["op"] == "recentre":
+            try:
+                gs.construct_face_centers(method="cartesian average")
+                cv = 1
+                steps.append({"same": True, "kept": True})
+            except Exception as e:  # noqa
+                steps.append({"err": "%s: %s" % (type(e).__name__, str(e)[:160])})
+            continue
         c = st["call"]
         try:
-            ref = fresh_result(c)
+            ref = fresh_result(c, cv)
         except Exception as e:  # noqa
-            steps.append({"err": "fresh call raises %s: %s" % (type(e).__name__, str(e)[:120]), "fresh": True})
+            steps.append({"err": "the call raises on freshly built grids: %s: %s" % (type(e).__name__, str(e)[:120])})
             continue
         try:
+            before = fp_all(gs, dests)
             got = do_call(c, gs, dests)
-            same = set(got) == set(ref) and all(got[k].shape == ref[k].shape and np.allclose(got[k], ref[k], rtol=0, atol=1e-12) for k in ref)
+            changed = fp_diff(before, fp_all(gs, dests))
             bad = sorted(k for k in ref if k not in got or got[k].shape != ref[k].shape or not np.allclose(got[k], ref[k], rtol=0, atol=1e-12))
-            steps.append({"same": bool(same), "bad_kinds": bad})
+            steps.append({"same": not bad and set(got) == set(ref), "kept": not changed, "bad_kinds": bad, "changed": changed})
         except Exception as e:  # noqa
             steps.append({"err": "%s: %s" % (type(e).__name__, str(e)[:160])})
     return {"id": hid, "steps": steps}
@@ -427,18 +476,22 @@ def remap_histories(ctx, rng):
     # the model: no memo / a sound memo are history-independent; a memo that forgets a key field is not
     ctx.tlc_ok("RemapHist", rh_cfg("MechObserved", 2, 6, ["Independent"]), what="remap as read (no memo): Independent, all pairs of calls", workers=4)
     ctx.tlc_ok("RemapHist", rh_cfg("MechMemoFull", 2, 6, ["Independent"]), what="a memo keyed by (kind, dest, coord, remapTo, k): Independent, all pairs of calls", workers=4)
-    for mech in ("MechMemoNoKind", "MechMemoNoDest", "MechMemoNoK"):
-        r = ctx.tlc("RemapHist", rh_cfg(mech, 2, 6, ["Independent"]), what="in-model mutant %s: Independent must be refuted" % mech, count=False, workers=4)
+    ctx.tlc_ok("RemapHist", rh_cfg("MechObserved", 3, 1, ["Independent"], shape="any"), what="remap as read, with Recentre (construct_face_centers on the source) anywhere: Independent, depth 3", workers=4)
+    ctx.tlc_ok("RemapHist", rh_cfg("MechMemoFull", 3, 1, ["Independent"], shape="any"), what="a memo keyed by all six fields incl. the centre version, with Recentre: Independent, depth 3", workers=4)
+    for mech in ("MechMemoNoKind", "MechMemoNoDest", "MechMemoNoK", "MechMemoNoCv", "MechTreeReuse"):
+        r = ctx.tlc("RemapHist", rh_cfg(mech, 3, 6 if mech.startswith("MechMemoNo") and mech != "MechMemoNoCv" else 1, ["Independent"], shape="calls" if mech in ("MechMemoNoKind", "MechMemoNoDest", "MechMemoNoK") else "recentre_mid"), what="in-model mutant %s: Independent must be refuted" % mech, count=False, workers=4)
         if r.violated != "Independent":
             raise Machinery("TLC did not refute Independent under %s: %s" % (mech, r))
     hs = gen_remap_histories(ctx, 2, 2 if thorough else 1)
+    # call, construct_face_centers on the source, call: the second search must see the new centres
+    hs += gen_remap_histories(ctx, 3, 1 if thorough else 0, shape="recentre_mid")
     if thorough:
         hs += gen_remap_histories(ctx, 3, 1)
     else:
         hs += gen_remap_histories(ctx, 3, 1, simulate="num=1200", seed=ctx.seed + 5)
     seen, uniq = set(), []
     for h in hs:
-        key = repr([sorted(s["call"].items()) for s in h])
+        key = repr([sorted(s["call"].items()) if s["op"] == "remap" else "recentre" for s in h])
         if key not in seen:
             seen.add(key)
             uniq.append(h)
@@ -450,8 +503,8 @@ def remap_histories(ctx, rng):
     path = os.path.join(ctx.work, "remap_hist.ndjson")
     with open(path, "w") as fh:
         for r in res:
-            fh.write(json.dumps({"id": r["id"], "steps": [({"err": s["err"]} if "err" in s else {"same": s["same"]}) for s in r["steps"]]}) + "\n")
-    jr = ctx.tlc_ok("RemapHist", rh_cfg("MechIntended", 2, 1, ["Judge"], judge=True), what="judge %d replayed remap histories" % len(res), env={"REC_FILE": path}, workers=4, count=False, timeout=1500)
+            fh.write(json.dumps({"id": r["id"], "steps": [({"err": s["err"]} if "err" in s else {"same": s["same"], "kept": s["kept"]}) for s in r["steps"]]}) + "\n")
+    jr = ctx.tlc_ok("RemapHist", rh_cfg("MechIntended", 2, 1, ["Judge"], judge=True, shape="any"), what="judge %d replayed remap histories" % len(res), env={"REC_FILE": path}, workers=4, count=False, timeout=1500)
     os.remove(path)
     if jr.distinct < len(res):
         raise Machinery("history judge visited %d states for %d records" % (jr.distinct, len(res)))
@@ -462,18 +515,18 @@ def remap_histories(ctx, rng):
     nsteps = 0
     for (hid, hist), r in zip(items, res):
         ctx.traces += 1
-        ctx.count(1, ("remap-history", hid) if any(s["diff"] for s in hist) else None)
+        ctx.count(1, ("remap-history", hid) if any(s["diff"] or s["op"] == "recentre" for s in hist) else None)
         nsteps += len(hist)
         for i, clause in sorted(failed.get(hid, ())):
             st, obs = hist[i - 1], r["steps"][i - 1]
             # (a call of the alphabet that raises even on freshly built grids is a Raises verdict too: every
             # call of the alphabet is admissible on these grids - k <= 3 <= every element count)
-            calls = [s["call"] for s in hist[:i]]
-            key = "remap-hist:" + ";".join("%s/%s/%s/%s/%s/d%d" % (c["level"], c["kind"], c["remapTo"], c["coord"], c["meth"], c["dest"]) for c in calls)
-            ctx.violation(key, clause, detail={"step": i, "differs_from_previous_call_in": st["diff"], "wrong_variables": obs.get("bad_kinds"), "error": obs.get("err")}, replay={"source": "%s/r%d/c%d" % H_SRC, "destinations": {str(d): "%s/r%d/c%d" % t for d, t in H_DST.items()}, "calls": calls, "data": "rng(kind index + 5).uniform(-3, 3, (2, n))"}, sig={"step": i, "diff": "+".join(st["diff"]) or "none", "level": st["call"]["level"]})
+            calls = [s.get("call", "construct_face_centers('cartesian average') on the source") for s in hist[:i]]
+            key = "remap-hist:" + ";".join(("%s/%s/%s/%s/%s/d%d" % (c["level"], c["kind"], c["remapTo"], c["coord"], c["meth"], c["dest"])) if isinstance(c, dict) else "recentre" for c in calls)
+            ctx.violation(key, clause, detail={"step": i, "differs_from_previous_call_in": st["diff"], "wrong_variables": obs.get("bad_kinds"), "changed": obs.get("changed"), "error": obs.get("err")}, replay={"source": "%s/r%d/c%d [topology_offcentres]" % H_SRC, "destinations": {str(d): "%s/r%d/c%d" % t for d, t in H_DST.items()}, "calls": calls, "data": "rng(kind index + 5).uniform(-3, 3, (2, n))"}, sig={"step": i, "diff": "+".join(st["diff"]) or "none", "level": st.get("call", {}).get("level", "-"), "after_recentre": any(x["op"] == "recentre" for x in hist[: i - 1])})
     ctx.note("remap_histories_replayed", len(items))
     ctx.note("remap_history_calls", nsteps)
-    ctx.sample({"remap_history": [s["call"] for s in uniq[len(uniq) // 2]], "differs_from_previous": [s["diff"] for s in uniq[len(uniq) // 2]]})
+    ctx.sample({"remap_history": [s.get("call", "recentre") for s in uniq[len(uniq) // 2]], "differs_from_previous": [s["diff"] for s in uniq[len(uniq) // 2]]})
 
 
 # =============================================================================== run
